@@ -40,6 +40,8 @@ def run_instance(args):
         registry.load_all()
         ob = registry.OBLIGATIONS[oid]
         h = dict(ob.instances(tier))[label]
+        if isinstance(h, registry.LeanCheck):
+            return run_lean(out, h, tier, t0)
         ex = harness.Explorer(h, tier=tier)
         ex.run()
         out["paths"] = len(ex.paths)
@@ -114,6 +116,44 @@ def run_instance(args):
         out["status"] = "done"
     except Exception as e:      # noqa
         out["errors"].append(["crash", traceback.format_exc()[-2000:]])
+    out["seconds"] = round(time.time() - t0, 3)
+    return out
+
+
+def run_lean(out, h, tier, t0):
+    import hashlib
+    import subprocess
+    path = os.path.join(ROOT, h.path)
+    text = open(path, "rb").read()
+    sha = hashlib.sha256(text).hexdigest()
+    rec_path = os.path.join(ROOT, "lean", "checked.json")
+    rec = json.load(open(rec_path)) if os.path.exists(rec_path) else {}
+    src = text.decode()
+    missing = [t for t in h.theorems if ("theorem " + t) not in src]
+    sorry = "sorry" in src or "admit" in src or "axiom " in src
+    if tier == "quick":
+        ok = rec.get(h.path) == sha and not missing and not sorry
+        out["vcs"].append(dict(name="lean:" + ",".join(h.theorems), result="unsat" if ok else "unknown", seconds=0.0,
+                               backend="lean-4 kernel (cached: sha256 of the source equals the one accepted by the last thorough run)",
+                               path=0, detail="" if ok else f"source hash {sha[:12]} not in lean/checked.json, theorem missing {missing} or sorry/axiom present: run the thorough tier"))
+    else:
+        t1 = time.time()
+        try:
+            p = subprocess.run(["lean", path], capture_output=True, text=True, timeout=1200)
+            txt = p.stdout + p.stderr
+            ok = p.returncode == 0 and "error" not in txt and not missing and not sorry
+        except Exception as e:      # noqa
+            txt, ok = repr(e), False
+        out["vcs"].append(dict(name="lean:" + ",".join(h.theorems), result="unsat" if ok else "unknown", seconds=round(time.time() - t1, 2),
+                               backend="lean-4.33 kernel + Mathlib", path=0, detail="" if ok else txt[-800:]))
+        if ok:
+            rec[h.path] = sha
+            json.dump(rec, open(rec_path, "w"), indent=1)
+    out["paths"] = 1
+    out["path_status"] = {"ok": 1}
+    out["status"] = "done"
+    out["units"] = {}
+    out["assumed"] = {"lean-bridge": "the matrix statements of lean/Lmin.lean are the same as the SMT-side obligations O01.1/O03.1/O05.1 (bridge written once in each language, trusted)"}
     out["seconds"] = round(time.time() - t0, 3)
     return out
 
